@@ -338,6 +338,9 @@ pub fn execute(ctx: &mut Ctx, lines: &[String]) -> Vec<String> {
     if !dup_ops.is_empty() {
         std::fs::create_dir_all(&dir).unwrap();
         let exe = std::env::current_exe().unwrap();
+        // `NOTE dupcapture`: the logger runs in WriteMode::SupportCapture (duplicates go through eprintln!/println!)
+        let mut dup_ops = dup_ops;
+        if lines.iter().any(|l| l == "NOTE dupcapture") { dup_ops.insert(0, "DUPCAPTURE".to_string()); }
         let o = std::process::Command::new(exe).arg("child").arg("dup").arg(&dir).args(&dup_ops).output().expect("child");
         dup_result = Some((String::from_utf8_lossy(&o.stderr).to_string(), String::from_utf8_lossy(&o.stdout).to_string()));
         if !o.status.success() {
@@ -362,6 +365,7 @@ pub fn execute(ctx: &mut Ctx, lines: &[String]) -> Vec<String> {
             ["END"] => "END".into(),
             // oracle-only annotation for the next PARSE/PARSENEW/PARSEPUSH:
             // NOTE <ok|err> <intended filters> <regex|_>
+            ["NOTE", "dupcapture"] => "ok".into(),
             ["NOTE", ok, fs, rx] => {
                 let fs = parse_filters(fs).expect("NOTE filters");
                 let rx = if *rx == "_" { None } else { unhexs(&rx[1..]) };
@@ -1691,6 +1695,7 @@ pub fn gen_c13(tier: &str, seed: u64) -> Vec<Vec<String>> {
         let mut c = vec![format!("CASE spec C13 {k}")];
         if r.chance(1, 5) {
             // duplication table incl. run-time adaptation (child process captures stderr/stdout)
+            if r.chance(1, 3) { c.push("NOTE dupcapture".into()); }
             c.push(format!("DUPINIT {} {}", r.below(7), r.below(7)));
             for i in 0..r.range(4, 12) {
                 if r.chance(1, 4) {
@@ -1749,12 +1754,15 @@ pub fn child_dup(args: &[String]) {
     let dir = std::path::PathBuf::from(&args[0]);
     let dup = |d: u64| match d { 0 => Duplicate::None, 1 => Duplicate::Error, 2 => Duplicate::Warn, 3 => Duplicate::Info, 4 => Duplicate::Debug, 5 => Duplicate::Trace, _ => Duplicate::All };
     let mut built: Option<(Box<dyn Log>, LoggerHandle)> = None;
+    let mut capture = false;
     for op in &args[1..] {
         let t = tokens(op);
         match t.as_slice() {
+            ["DUPCAPTURE"] => capture = true,
             ["DUPINIT", e, o] => {
                 built = Some(Logger::with(LogSpecification::trace())
                     .log_to_file(flexi_logger::FileSpec::default().directory(&dir).basename("dup").suppress_timestamp())
+                    .write_mode(if capture { flexi_logger::WriteMode::SupportCapture } else { flexi_logger::WriteMode::Direct })
                     .format(crate::props::flw::raw_format)
                     .duplicate_to_stderr(dup(e.parse().unwrap()))
                     .duplicate_to_stdout(dup(o.parse().unwrap()))
